@@ -887,7 +887,7 @@ func c14(c *core.Ctx, r *core.Report) {
 				case apiPkg:
 					m++
 					dd := d.Of(st.Val)
-					r.Check(strings.HasSuffix(dd, "#0.Concurrency") && strings.Contains(dd, "ParseConfigFile("), core.FuncName(fn)+"#api.Options.Concurrency", an.Pos(c, in), "← "+dd, "api.Options.Concurrency is fed from "+dd+", not from the validated RunnableStages.Concurrency")
+					r.Check((strings.HasSuffix(dd, "#0.Concurrency") && strings.Contains(dd, "ParseConfigFile(")) || fromPlanField(st.Val, "Concurrency"), core.FuncName(fn)+"#api.Options.Concurrency", an.Pos(c, in), "← "+dd, "api.Options.Concurrency is fed from "+dd+", not from the validated RunnableStages.Concurrency")
 				case optionsPkg:
 					m++
 					key := core.FuncName(fn) + "#RunOptions.Concurrency"
